@@ -63,13 +63,13 @@ PROPS = {
                  'T8 filesystems are arbitrary but return positive errnos and, for read, the count they appended to the writer'],
     ),
     'C02': dict(
-        vx_units=['server'], kx=[],
+        vx_units=['server', 'arcfs'], kx=[],
         design_ref='DESIGN.md section 5, C02',
         not_covered=[
             'READDIR / READDIRPLUS (Server::do_readdir not verified) and, until verified, the handlers listed as body=assumed in functions_under_contract',
             'that result-less calls (forget, batch_forget, destroy) happen at least once, and "exactly one call" as opposed to "no other call": capabilities forbid every other call but cannot demand one',
             'identity of the payload reader handed to FileSystem::write and of the writer handed to read (only their non-stream arguments are pinned)',
-            'Arc<FS> forwarding impl (src/api/filesystem/sync_io.rs:923-1376)',
+            'Arc<FS> forwarding of readdir / readdirplus (&mut dyn FnMut)',
         ],
         trusted=['T3 as C01', 'T8 F::Inode / F::Handle conversions are functions (vstd FromSpec / IntoSpec obeys_*)',
                  'contract-only helpers: bytes_to_cstr, ServerUtil::extract_two_cstrs (iter().position), ServerUtil::get_message_body (unsafe set_len)'],
